@@ -138,7 +138,7 @@ def judge(src, placed, base_struct, base_lines, std, ic):
     want = [list(p) for p in placed]
 
     def norm(p):
-        s = "".join(p).lower().replace("#", "# ", 1).replace(" ", "")
+        s = "".join(p).replace("#", "# ", 1).replace(" ", "")  # case-sensitive: the C preprocessor is
         return s
 
     def angle(p):
@@ -174,6 +174,8 @@ def plan(tier, seed):
         for first in names:
             tasks.append(("B", tier, first, d))
     tasks.append(("FIX", tier))
+    for pid in ("P6", "P5") if tier == "quick" else sorted(corpus.corpus()):
+        tasks.append(("CS", tier, pid))
     return tasks
 
 
@@ -202,8 +204,77 @@ def fixed_text(prog):
     return lines
 
 
+def case_variants(form):
+    """directives that differ from `form` in letter case only (the C
+    preprocessor is case sensitive: they are different directives)"""
+    word, arg = form
+    out = []
+    for v in (arg.swapcase(), arg.lower(), arg.upper()):
+        if v != arg and (word, v) not in out:
+            out.append((word, v))
+    return out
+
+
+def run_case_layer(res, task):
+    """two directives equal up to letter case: in one source (both orders, all
+    pairs of a few gaps) and in two successive parses of one process"""
+    _, tier, pid = task
+    prog = corpus.corpus()[pid]
+    std = G.prog_std(prog)
+    base_src = corpus.render(prog)
+    o0 = try_parse(base_src, std)
+    base_struct = struct(o0.tree)
+    base_lines = [l.strip() for l in text_of(o0.tree).split("\n") if l.strip()]
+    lines = base_src.rstrip("\n").split("\n")
+    n = len(lines)
+    gaps = sorted(set([0, 1, n // 2, n - 1, n]))
+    modes = ["plain"] if tier == "quick" else ["plain", "continued"]
+    for form in FORMS:
+        for var in case_variants(form):
+            for mode in modes:
+                l1, p1 = render_directive(form, mode)
+                l2, p2 = render_directive(var, mode)
+                for ic in (True, False) if tier != "quick" else (True,):
+                    # (a) one source
+                    for g1 in gaps:
+                        for g2 in gaps:
+                            if g2 < g1:
+                                continue
+                            for (la, pa), (lb, pb) in (((l1, p1), (l2, p2)), ((l2, p2), (l1, p1))):
+                                src = "\n".join(lines[:g1] + la + lines[g1:g2] + lb + lines[g2:]) + "\n"
+                                res.evals += 1
+                                res.transitions += 1
+                                hk = h64(src, std, str(ic))
+                                res.states.add(hk)
+                                res.nontrivial.add(hk)
+                                res.results.add(hk)
+                                vs = judge(src, [pa, pb], base_struct, base_lines, std, ic)
+                                res.outcomes["case-pair:" + ("ok" if not vs else vs[0][0])] += 1
+                                for kind, detail in vs:
+                                    res.violation(sig(kind, [pa, pb], "|case-pair"), "%s std=%s ic=%s\n%s\n--- source:\n%s" % (pid, std, ic, detail, src), {"src": src, "placed": [pa, pb], "base": base_src, "std": std, "ic": ic, "extra": "|case-pair"}, cost=len(src))
+                    # (b) two parses, the second judged
+                    for g in gaps[:3]:
+                        for (la, pa), (lb, pb) in (((l1, p1), (l2, p2)), ((l2, p2), (l1, p1))):
+                            first = "\n".join(lines[:g] + la + lines[g:]) + "\n"
+                            src = "\n".join(lines[:g] + lb + lines[g:]) + "\n"
+                            try_parse(first, std, ignore_comments=ic)
+                            res.evals += 1
+                            res.transitions += 2
+                            hk = h64(first, src, std, str(ic))
+                            res.states.add(hk)
+                            res.nontrivial.add(hk)
+                            vs = judge(src, [pb], base_struct, base_lines, std, ic)
+                            res.outcomes["case-history:" + ("ok" if not vs else vs[0][0])] += 1
+                            for kind, detail in vs:
+                                res.violation(sig(kind, [pb], "|case-history"), "%s std=%s ic=%s: parse of\n%s\nthen parse of the source below\n%s\n--- source:\n%s" % (pid, std, ic, first, detail, src), {"src": src, "placed": [pb], "base": base_src, "std": std, "ic": ic, "before": first}, cost=len(src) + len(first))
+    res.sample({"program": pid, "pair": [" ".join(FORMS[1]), " ".join(case_variants(FORMS[1])[0])]})
+    return res
+
+
 def run(task):
     res = Result()
+    if task[0] == "CS":
+        return run_case_layer(res, task)
     if task[0] == "FIX":
         # fixed-form leg: one inserted directive at every gap
         for pid, prog in sorted(corpus.corpus().items()):
@@ -276,9 +347,12 @@ def replay(case):
     base_struct = struct(o0.tree)
     base_lines = [l.strip() for l in text_of(o0.tree).split("\n") if l.strip()]
     placed = [list(p) for p in case["placed"]]
+    if case.get("before"):
+        try_parse(case["before"], case["std"], ignore_comments=case["ic"])
+        return [{"sig": sig(k, placed, "|case-history"), "detail": d} for k, d in judge(case["src"], placed, base_struct, base_lines, case["std"], case["ic"])]
     if case.get("fixed"):
         mode = FortranStringReader(case["src"]).format.mode
         if mode != "fix":
             return [{"sig": sig("fixed-form-seen-as-" + mode, placed, "|fixed-form"), "detail": mode}]
         return [{"sig": sig(k, placed, "|fixed-form"), "detail": d} for k, d in judge(case["src"], placed, base_struct, base_lines, case["std"], True)]
-    return [{"sig": sig(k, placed), "detail": d} for k, d in judge(case["src"], placed, base_struct, base_lines, case["std"], case["ic"])]
+    return [{"sig": sig(k, placed, case.get("extra", "")), "detail": d} for k, d in judge(case["src"], placed, base_struct, base_lines, case["std"], case["ic"])]
